@@ -1154,6 +1154,76 @@ def integrate_grid(ctx, env):
     ctx.count("integrate-grid:cases", n)
 
 
+def underdetermined_stream(ctx, env):
+    """The error clause with VECTOR / MATRIX-valued real inputs and generic (non-dyadic) float data: rank from 0 to
+    dim_b - 1 (in particular rank >= number of reduced VARIABLES but < number of flattened ELEMENTS) for partial and
+    full marginalisation, log_normalizer and Integrate: the call must raise; a returned value is a violation
+    (20 random draws per shape and operation so that rounding-noise pivots of a singular Cholesky are hit)."""
+    rng = ctx.rng
+    n = 0
+    for shape in [(2,), (3,), (2, 2)]:
+        for op in ["partial", "partial-two-vars", "full", "log_normalizer", "integrate-variable", "integrate-gaussian"]:
+            for draw in range(20):
+                red = [("x", shape)] + ([("z", (2,))] if op == "partial-two-vars" else [])
+                kept = [("y", rng.choice([(), (2,)]))] if op.startswith("partial") else []
+                batch = [("i", 2)] if rng.random() < 0.3 else []
+                order = [("r", k, sh) for k, sh in red + kept] + [("b", k, m) for k, m in batch]
+                rng.shuffle(order)
+                dim_b = sum(numel(sh) for _, sh in red)
+                dim = dim_b + sum(numel(sh) for _, sh in kept)
+                lo = len(red) if rng.random() < 0.8 else 0
+                rank = rng.randint(min(lo, dim_b - 1), dim_b - 1)
+                bshape = tuple(m for _, m in batch)
+                w = np.array([rng.gauss(0, 1) for _ in range(int(np.prod(bshape + (rank,))))]).reshape(bshape + (rank,))
+                P = np.array([rng.gauss(0, 1) for _ in range(int(np.prod(bshape + (dim, rank))))]).reshape(bshape + (dim, rank))
+                inputs = inputs_of(order)
+                g = Gaussian(w, P, inputs)
+                rnames = [k for k, _ in red]
+                xvar = Variable("x", dom(shape))
+
+                def call():
+                    if op.startswith("partial") or op == "full":
+                        return g.reduce(ops.logaddexp, frozenset(rnames))
+                    if op == "log_normalizer":
+                        return g.log_normalizer
+                    if op == "integrate-variable":
+                        return Integrate(g, xvar, frozenset([xvar]))
+                    h = Gaussian(np.ones(bshape + (1,)), np.ones(bshape + (dim, 1)), inputs)
+                    return Integrate(g, h, frozenset([xvar]))
+                try:
+                    res = call()
+                except Exception as e:      # any error is what the property asks for
+                    ctx.count(f"underdetermined:{op}:raised:{type(e).__name__}")
+                    n += 1
+                    ctx.case(nontrivial_key=("underdetermined", shape, op, draw, rank))
+                    continue
+                if c12.decompose(res) is None:
+                    ctx.count(f"underdetermined:{op}:lazy")
+                    continue
+                wit = dict(stream="underdetermined", op=op, order=[[o[0], o[1], list(o[2]) if o[0] == "r" else o[2]] for o in order],
+                           rank=rank, dim_b=dim_b, white_vec=w.tolist(), prec_sqrt=P.tolist())
+                py = ("import numpy as np\nfrom collections import OrderedDict\nimport funsor\nfunsor.set_backend('numpy')\n"
+                      "import funsor.ops as ops\nfrom funsor.domains import Bint, Real, Reals\nfrom funsor.gaussian import Gaussian\n"
+                      "from funsor.terms import Variable\nfrom funsor.integrate import Integrate\n"
+                      f"order = {wit['order']!r}\n"
+                      "inputs = OrderedDict((k, (Reals[tuple(s)] if s else Real) if kind == 'r' else Bint[s]) for kind, k, s in order)\n"
+                      f"g = Gaussian(np.array({w.tolist()!r}).reshape({w.shape!r}), np.array({P.tolist()!r}).reshape({P.shape!r}), inputs)\n"
+                      f"op = {op!r}; rnames = {rnames!r}; shape = {tuple(shape)!r}\n"
+                      "x = Variable('x', Reals[shape])\n"
+                      "try:\n"
+                      "    if op.startswith('partial') or op == 'full':\n        r = g.reduce(ops.logaddexp, frozenset(rnames))\n"
+                      "    elif op == 'log_normalizer':\n        r = g.log_normalizer\n"
+                      "    elif op == 'integrate-variable':\n        r = Integrate(g, x, frozenset([x]))\n"
+                      "    else:\n        r = Integrate(g, Gaussian(np.ones(g.white_vec.shape[:-1] + (1,)), "
+                      "np.ones(g.prec_sqrt.shape[:-1] + (1,)), inputs), frozenset([x]))\n"
+                      "    print('returned', r)\n    FAILS = True\n"
+                      "except Exception as e:\n    print('raised', type(e).__name__)\n    FAILS = False\n")
+                ctx.fail("input", "C13.underdetermined-returns-value", witness=wit,
+                         expected=f"an error: rank {rank} < {dim_b} elements of the integrated block",
+                         got=str(res)[:300], python=py)
+    ctx.count("underdetermined:cases", n)
+
+
 def _snapshot(f):
     """bitwise image of a result (for the history-independence gate)"""
     obs = Obs(f)
@@ -1340,12 +1410,20 @@ def replay_plate_exhaustive(case_seed, order_raw, mixture):
 
 def replay(ctx, doc):
     w = doc.get("witness") or {}
+    if w.get("stream") == "underdetermined":
+        env_ = {}
+        exec(doc["python"], env_)
+        return bool(env_.get("FAILS"))
     if "case_seed" not in w:
         return True
     if w.get("stream") == "plate-exhaustive":
         return replay_plate_exhaustive(w["case_seed"], w["order_raw"], w["mixture"])
     if w.get("stream") == "integrate-grid":
         return replay_integrate_grid(w["case_seed"], w["force"])
+    if w.get("stream") == "underdetermined":
+        env_ = {}
+        exec(doc["python"], env_)
+        return bool(env_.get("FAILS"))
     return replay_case(w["case_seed"], "history" if w.get("stream") == "history" else None)
 
 
@@ -1416,6 +1494,7 @@ def _correspond(ctx, use_driver=True, volume=None):
         inverse_stream(ctx, 80 if ctx.tier == "quick" else 800)
     plate_exhaustive(ctx, env)
     integrate_grid(ctx, env)
+    underdetermined_stream(ctx, env)
     n = volume or (900 if ctx.tier == "quick" else 16000)
     for _ in range(n):
         seed = ctx.rng.getrandbits(48)
